@@ -975,6 +975,8 @@ func (self *Assembler) _asm_OP_eface(_ *ir.Instr) {
 	self.Emit("LEAQ", jit.Ptr(_SP_p, 8), _CX) // LEAQ  8(SP.p), CX
 	self.Emit("MOVQ", _ST, _DI)               // MOVQ  ST, DI
 	self.Emit("MOVQ", _ARG_fv, _SI)           // MOVQ  fv, AX
+	/* the dynamic value of an interface is not addressable */
+	self.Emit("BTRQ", jit.Imm(alg.BitPointerValue), _SI)
 	self.call_encoder(_F_encodeTypedPointer)  // CALL  encodeTypedPointer
 	self.Emit("TESTQ", _ET, _ET)              // TESTQ ET, ET
 	self.Sjmp("JNZ", _LB_error)               // JNZ   _error
@@ -988,6 +990,8 @@ func (self *Assembler) _asm_OP_iface(_ *ir.Instr) {
 	self.Emit("LEAQ", jit.Ptr(_SP_p, 8), _CX) // LEAQ  8(SP.p), CX
 	self.Emit("MOVQ", _ST, _DI)               // MOVQ  ST, DI
 	self.Emit("MOVQ", _ARG_fv, _SI)           // MOVQ  fv, AX
+	/* the dynamic value of an interface is not addressable */
+	self.Emit("BTRQ", jit.Imm(alg.BitPointerValue), _SI)
 	self.call_encoder(_F_encodeTypedPointer)  // CALL  encodeTypedPointer
 	self.Emit("TESTQ", _ET, _ET)              // TESTQ ET, ET
 	self.Sjmp("JNZ", _LB_error)               // JNZ   _error
@@ -1052,6 +1056,8 @@ func (self *Assembler) _asm_OP_recurse(p *ir.Instr) {
 	self.Emit("MOVQ", _ARG_fv, _SI) // MOVQ  $fv, SI
 	if pv {
 		self.Emit("BTSQ", jit.Imm(alg.BitPointerValue), _SI) // BTSQ $1, SI
+	} else {
+		self.Emit("BTRQ", jit.Imm(alg.BitPointerValue), _SI) // the flag of an enclosing frame does not apply here
 	}
 
 	self.call_encoder(_F_encodeTypedPointer) // CALL  encodeTypedPointer
